@@ -9,11 +9,15 @@ ASSUMPTIONS = ["the independent decoder + Conform predicate are the oracle for '
                "compressor front end is not modelled: conformance is established per emitted frame"]
 
 
-def gen_cases(ctx):
+def total_cases(ctx):
+    return 500 if ctx.quick() else 8000
+
+
+def gen_cases(ctx, start=0, count=None):
     rng = ctx.rng
-    n = 500 if ctx.quick() else 8000
+    n = total_cases(ctx)
     cases = []
-    for i in range(n):
+    for i in range(start, n if count is None else min(n, start + count)):
         k = i % 5
         if k == 0:      # long inputs with long-range repetition at small windows: the only place window bugs show
             wl = rng.choice([10, 10, 11, 12, 13, 14, 17])
@@ -165,20 +169,41 @@ def tie_header(ctx):
 def correspondence(ctx):
     ntie = tie_header(ctx)
     exe = frames.harness()
-    cases = gen_cases(ctx)
-    lines = [line_for(ctx.rng, c) for c in cases]
-    frs = frames.parallel(lambda ch: frames.run_lines_exact(exe, ch, timeout=1800), frames.split_chunks(lines, 16))
-    frs += ["err missing"] * (len(lines) - len(frs))
+    acc = dict(modes={}, distinct=set(), cov=0, rejected=0, n=0, samples=[])
+    # in batches (a batch is generated, compressed, decoded, judged and dropped): the thorough tier's inputs with the hex forms the two harnesses and the
+    # Lean driver read do not fit in memory all at once
+    B = 500
+    for start in range(0, total_cases(ctx), B):
+        cases = gen_cases(ctx, start, B)
+        lines = [line_for(ctx.rng, c) for c in cases]
+        frs = frames.parallel(lambda ch: frames.run_lines_exact(exe, ch, timeout=1800), frames.split_chunks(lines, 16))
+        judge(ctx, exe, cases, lines, frs, acc)
+        if len(ctx.violations) >= 5:
+            break
     # directed call histories on the caller's own memory (harness/zvh_seg.c; drawn after the others: their stream is unchanged):
     # begin / continue / end over segments (tiny first / middle segments; separate heap blocks, contiguous, ring buffer, one overwritten buffer; raw and
     # formatted dictionaries attached / loaded) and the prefix-edge family through compress2 and compressStream2 (stable / copied input, several chunkings)
-    dcases = segfam.seg_cases(ctx.rng, 230 if ctx.quick() else 3000)
-    ecases = segfam.edge_cases(ctx.rng, 56 if ctx.quick() else 800, 8 if ctx.quick() else 100, chunked=True)
-    for c in ecases: c["mode"] = "pre"
-    dlines = [segfam.seg_line(c) for c in dcases] + [segfam.pre_line(c) for c in ecases]
     sexe = segfam.harness()
-    dfr = segfam.run_all(sexe, dlines)
-    cases, lines, frs = cases + dcases + ecases, lines + dlines, frs + dfr
+    for k in range(1 if ctx.quick() else 10):
+        if len(ctx.violations) >= 5:
+            break
+        dcases = segfam.seg_cases(ctx.rng, 230 if ctx.quick() else 300)
+        ecases = segfam.edge_cases(ctx.rng, 56 if ctx.quick() else 80, 8 if ctx.quick() else 10, chunked=True)
+        for c in ecases: c["mode"] = "pre"
+        dlines = [segfam.seg_line(c) for c in dcases] + [segfam.pre_line(c) for c in ecases]
+        judge(ctx, exe, dcases + ecases, dlines, segfam.run_all(sexe, dlines), acc)
+    return dict(evaluations=acc["n"] + ntie, distinct_nontrivial=len(acc["distinct"]), header_writer_tie_calls=ntie,
+                rule="frames from compress2 / compressStream2 under random call histories / multithreaded compression (1-3 workers, jobSize, overlapLog, rsyncable) / dictionaries, "
+                     "including inputs several windows long with repeats placed just inside / at / just beyond the window (windowLog 10..17, LDM on/off); each frame is decoded by the independent Lean decoder and its "
+                     "trace checked by Conform.checkFrame; plus (tools/segfam.py) frames from compressBegin[_usingDict|_usingCDict|_advanced|_usingCDict_advanced] / compressContinue / compressEnd over segmented inputs "
+                     "(0..8-byte first and middle segments; separate heap blocks, contiguous, ring buffer, one overwritten buffer; raw-content and formatted dictionaries recurring in the input; levels 1..19) and the "
+                     "prefix-edge family (byte in front of the source buffer chosen) through compress2 / compressStream2 with stable and copied input; distinct = (input hash, call line prefix)",
+                samples=acc["samples"], modes=acc["modes"], params_rejected=acc["rejected"], decoder_feature_bitmap=acc["cov"])
+
+
+def judge(ctx, exe, cases, lines, frs, acc):
+    """one batch: frames -> independent decoder + conformance predicate (+ the library's decoder for the directed families) -> violations / accumulator"""
+    frs = list(frs) + ["err missing"] * (len(lines) - len(frs))
     cl = []
     for c, f, ln in zip(cases, frs, lines):
         c["line"] = ln
@@ -186,13 +211,18 @@ def correspondence(ctx):
         c["raw"] = f
         cl.append("conform %s %s %s %d %d %d" % (c["frame"], frames.hx(c["x"]), frames.hx(c["d"]), c["p"].get(1015, 0), 0, 1 if c["p"].get(130) else 0) if not f.startswith("err") else "bad")
     conf = frames.parallel(lambda ch: frames.model_lines(ch), frames.split_chunks(cl, 16))
+    del cl
     # the directed frames also go through the library's own decoder (with the dictionary): decode(frame, dict) == concatenation of the segments
     dd = [c for c in cases if c["mode"] in ("seg", "pre") and not c["raw"].startswith("err")]
-    ldec = frames.parallel(lambda ch: frames.run_lines(exe, ch)[1], frames.split_chunks(
-        [ln for c in dd for ln in ("dec %d %s%s" % (len(c["x"]), c["frame"], (" " + frames.hx(c["d"])) if c["d"] else ""), "xxh " + frames.hx(c["x"]))], 16))
-    for k, c in enumerate(dd):
-        c["libdec"], c["want"] = (ldec[2 * k], ldec[2 * k + 1]) if 2 * k + 1 < len(ldec) else ("missing", "?")
-    modes, distinct, cov, rejected = {}, set(), 0, 0
+    if dd:
+        ldec = frames.parallel(lambda ch: frames.run_lines_exact(exe, ch), frames.split_chunks(
+            [ln for c in dd for ln in ("dec %d %s%s" % (len(c["x"]), c["frame"], (" " + frames.hx(c["d"])) if c["d"] else ""), "xxh " + frames.hx(c["x"]))], 16))
+        for k, c in enumerate(dd):
+            c["libdec"], c["want"] = (ldec[2 * k], ldec[2 * k + 1]) if 2 * k + 1 < len(ldec) else ("missing", "?")
+    modes, distinct = acc["modes"], acc["distinct"]
+    acc["n"] += len(cases)
+    if not acc["samples"]:
+        acc["samples"] = [dict(op=c["line"][:100], result=r[:100]) for c, r in list(zip(cases, conf))[:3]]
     for c, r in zip(cases, conf):
         modes[c["mode"]] = modes.get(c["mode"], 0) + 1
         rep = dict(kind="monitor", op=c["line"][:400000], frame=c["frame"][:300000], result=r)
@@ -207,11 +237,11 @@ def correspondence(ctx):
             ctx.violation("the library crashed / hung while compressing (%s): %s" % (c["raw"], c["line"][:120]), rep)
         elif c["raw"].startswith("err"):
             if "parameter" in c["raw"]:
-                rejected += 1
+                acc["rejected"] += 1
                 continue
             ctx.violation("compression failed: %s (%s)" % (c["raw"], c["line"][:120]), rep)
         elif r.startswith("ok"):
-            cov |= int(r.split("cov=")[1])
+            acc["cov"] |= int(r.split("cov=")[1])
             distinct.add(hashlib.sha1(c["x"]).hexdigest() + c["line"][:60])
         elif r.startswith("viol"):
             ctx.violation("emitted frame is not conformant: %s (mode %s, params %s)" % (r[:300], c["mode"], frames.pstr(c["p"])), rep)
@@ -219,14 +249,6 @@ def correspondence(ctx):
             ctx.violation("independent decoder does not regenerate the input from the emitted frame: %s (mode %s, params %s)" % (r, c["mode"], frames.pstr(c["p"])), rep)
         if len(ctx.violations) >= 5:
             break
-    return dict(evaluations=len(cases) + ntie, distinct_nontrivial=len(distinct), header_writer_tie_calls=ntie,
-                rule="frames from compress2 / compressStream2 under random call histories / multithreaded compression (1-3 workers, jobSize, overlapLog, rsyncable) / dictionaries, "
-                     "including inputs several windows long with repeats placed just inside / at / just beyond the window (windowLog 10..17, LDM on/off); each frame is decoded by the independent Lean decoder and its "
-                     "trace checked by Conform.checkFrame; plus (tools/segfam.py) frames from compressBegin[_usingDict|_usingCDict|_advanced|_usingCDict_advanced] / compressContinue / compressEnd over segmented inputs "
-                     "(0..8-byte first and middle segments; separate heap blocks, contiguous, ring buffer, one overwritten buffer; raw-content and formatted dictionaries recurring in the input; levels 1..19) and the "
-                     "prefix-edge family (byte in front of the source buffer chosen) through compress2 / compressStream2 with stable and copied input; distinct = (input hash, call line prefix)",
-                samples=[dict(op=c["line"][:100], result=r[:100]) for c, r in list(zip(cases, conf))[:3]], modes=modes, params_rejected=rejected,
-                decoder_feature_bitmap=cov)
 
 
 def replay(ctx, data):
